@@ -144,7 +144,7 @@ section global
 variable (c : Circuit) (ord : Ord) (hord : ∀ l, (ord l).Perm l)
   (hnd : c.nodeNames.Nodup)
   (htyped : ∀ p ∈ c.nodes, ∃ t, p.2.ty = some t ∧ t ∈ Expected.supported_types ∧ t ≠ "x")
-  (hsingle : ∀ n t, c.ty? n = some t → t ∈ ["buf", "not", "bb_input"] → (c.fanin n).length = 1)
+  (hsingle : ∀ n t, c.ty? n = some t → t ∈ ["buf", "not", "bb_input"] → (c.fanin n).length ≤ 1)
   (hmulti : ∀ n t, c.ty? n = some t → t ∈ ["and", "nand", "or", "nor", "xor", "xnor"] →
     1 ≤ (c.fanin n).length)
 include hord hnd htyped hsingle hmulti
